@@ -38,9 +38,12 @@ OUTSIDE = ("layouts with alt-widths AND reversed sub-register order together (no
            "the implementation's raw/cooked convention for them is not self-consistent - noted in DESIGN.md); string "
            "operands other than enum names and rendered hex numbers; hidden registers in parse (excluded by design)")
 STUBS = ["get_bytes_cnt_of_int -> verified loop-free summary (equivalence proved in this run: case summary_equiv/*)",
-         "Register.get_hex_value / RegsBitField.get_hex_value -> HexNum(str) carrying the integer; value_to_int / "
-         "int(x,16) of a HexNum return it (CPython formatting and parsing trusted to be mutually inverse)"]
-MUST_REACH = ["summary\\..*", "bf\\..*", "reg\\..*", "hist\\..*", "grp\\..*", "file\\..*"]
+         "Register.get_hex_value / RegsBitField.get_hex_value -> HexNum(str) carrying the integer and its rendering kind "
+         "(0x-prefixed / bare digits of a config_as_hexstring register); int(x,16) returns the integer (CPython formatting and "
+         "parsing trusted to be mutually inverse); value_to_int of a bare rendering -> loop-free summary of the real grammar "
+         "(decimal when all digits are 0..9, binary behind 0B, otherwise an error), equivalence proved in this run "
+         "(hexsummary/*: real value_to_int on symbolic characters, 1..4 / 1..6 digits)"]
+MUST_REACH = ["summary\\..*", "hexsummary\\..*", "bf\\..*", "reg\\..*", "hist\\..*", "grp\\..*", "file\\..*"]
 OPTS = {"quick": {"case_timeout_s": 300}, "thorough": {"case_timeout_s": 1800, "max_paths": 100000}}
 CONCRETE_TIMEOUT_S = 20
 
@@ -59,20 +62,13 @@ def setup(symbolic):
         REAL_CNT = M.get_bytes_cnt_of_int
         SUMMARY = summaries.bytes_cnt_summary(REAL_CNT, 66)
         loader.patch_everywhere(REAL_CNT, SUMMARY)
-        real_v2i = M.value_to_int
-
-        class HexNum(str):
-            def __new__(cls, v):
-                s = str.__new__(cls, "0x<sym>")
-                s.sym = v
-                return s
-
-        def value_to_int(value, default=None):
-            if isinstance(value, HexNum):
-                return value.sym
-            return real_v2i(value, default)
-        loader.patch_everywhere(real_v2i, value_to_int)
-        R.Register.get_hex_value = lambda self, raw=False: HexNum(self.get_value(raw=raw))
+        from symx import hexnum
+        from symx.hexnum import HexNum
+        from symx.sstr import ReProxy
+        M.re = ReProxy(M.re)
+        hexnum.install_value_to_int()
+        R.Register.get_hex_value = lambda self, raw=False: (lambda v: HexNum(
+            v, digits=(self.get_alt_width(v) // 4) if self.config_as_hexstring else None))(self.get_value(raw=raw))
 
         class RawStr(str):
             """the text 'RAW:<number>' of a symbolic number: prefix test and removal are the only string operations"""
@@ -88,14 +84,6 @@ def setup(symbolic):
         global RAWSTR
         RAWSTR = RawStr
         R.RegsBitField.get_hex_value = lambda self: HexNum(self.get_value())
-        from symx import shims
-        real_int = shims.sx_int.__new__
-
-        def int_new(cls, x=0, *a, **k):
-            if isinstance(x, HexNum):
-                return x.sym
-            return real_int(cls, x, *a, **k)
-        shims.sx_int.__new__ = int_new
 
 
 def _bf_layouts(W, full):
@@ -147,7 +135,9 @@ def cases(tier):
         for sw in (8, 32):
             for kind in ("plain", "rev_order", "rev_bytes", "alt"):
                 cs.append({"id": f"grp/n={nsub}/sw={sw}/{kind}", "h": "grp", "n": nsub, "sw": sw, "kind": kind})
-    for kind in ("export_parse", "config", "queries"):
+    for k in ((1, 2, 3, 4) if q else (1, 2, 3, 4, 5, 6)):
+        cs.append({"id": f"hexsummary/n={k}", "h": "hexsummary", "n": k, "weight": k})
+    for kind in ("export_parse", "config", "config_hexstring", "queries"):
         for rev in (False, True):
             cs.append({"id": f"file/{kind}/rev={int(rev)}", "h": "file", "kind": kind, "rev": rev, "weight": 3})
     return cs
@@ -177,6 +167,35 @@ def h_summary(env, c):
     b = call(SUMMARY)
     env.prove(a[0] == b[0], "summary.same_outcome_kind")
     env.prove(a[1] == b[1], "summary.equal")
+
+
+def h_hexsummary(env, c):
+    """value_to_int on the bare rendering of a number (n upper-case hexadecimal digits, what a config_as_hexstring
+    register is stored as) equals the loop-free summary used when such a text reaches value_to_int."""
+    from symx.hexnum import bare_value_to_int
+    n = c["n"]
+    v = env.int("v", 0, 16 ** n - 1)
+    if env.symbolic:
+        from symx.sstr import SymStr
+        codes = []
+        for i in range(n - 1, -1, -1):
+            d = (v // (16 ** i)) % 16
+            codes.append(env.If(d < 10, 48 + d, 55 + d))
+        text = SymStr.make(codes)
+        real = getattr(M.value_to_int, "__wrapped__", M.value_to_int)
+    else:
+        text = f"{v:0{n}X}"
+        real = M.value_to_int
+
+    def call(f, *a):
+        try:
+            return ("ok", f(*a))
+        except EX.SPSDKError:
+            return ("err", 0)
+    a = call(real, text)
+    b = call(bare_value_to_int, v, n, EX.SPSDKError("not a number"))
+    env.prove(a[0] == b[0], "hexsummary.same_outcome_kind")
+    env.prove(a[1] == b[1], "hexsummary.equal")
 
 
 def _rev_bytes(env, x, nbytes):
@@ -419,16 +438,16 @@ def h_grp(env, c):
 
 
 # ------------------------------------------------------------------------------------------------
-def _mk_file(rev):
+def _mk_file(rev, hexs=False):
     regs = _file(None)
     a = _mk_reg(32, name="A", offset=0x0)
     fa = _add_bf(a, "LOW", 0, 8, reset=0x12)
     fh = _add_bf(a, "HIDDEN_BITFIELD_008", 8, 8, reset=0xFF, hidden=True)
     fb = _add_bf(a, "HIGH", 16, 16, reset=0)
     fa.add_enum(R.RegsEnum("ON", 1, "d", 8))
-    b = _mk_reg(16, name="B", offset=0x4, rev=rev)
+    b = _mk_reg(16, name="B", offset=0x4, rev=rev, config_as_hexstring=hexs)
     hid = _mk_reg(16, name="HID", offset=0x6, hidden=True)
-    g = _mk_reg(0, name="G", offset=0)
+    g = _mk_reg(0, name="G", offset=0, config_as_hexstring=hexs)
     regs.add_register(a)
     regs.add_register(b)
     regs.add_register(hid)
@@ -444,7 +463,9 @@ def _state(regs):
 
 def h_file(env, c):
     kind, rev = c["kind"], c["rev"]
-    regs = _mk_file(rev)
+    hexs = kind == "config_hexstring"     # registers stored as bare hexadecimal digits (as ROTKH / RKTH in the database)
+    kind = "config" if hexs else kind
+    regs = _mk_file(rev, hexs)
     va = env.int("a", 0, (1 << 32) - 1)
     vb = env.int("b", 0, (1 << 16) - 1)
     vg = env.int("g", 0, (1 << 64) - 1)
@@ -464,7 +485,7 @@ def h_file(env, c):
         env.observe("data", data)
     elif kind == "config":
         cfg = regs.get_config()
-        fresh = _mk_file(rev)
+        fresh = _mk_file(rev, hexs)
         fresh.load_yml_config(cfg)
         st2 = _state(fresh)
         env.prove(st2[0] == va, "file.config_roundtrip_restores_bitfield_register")
